@@ -37,6 +37,7 @@ func init() {
 	props["C08"] = propCfg{World: "var", Level: "exploration", Quick: 6000, Thorough: 400000, Chunk: 200, Rule: varRule, Assume: commonAssume}
 	props["C01"] = propCfg{World: "hist", Level: "exploration", Quick: 2400, Thorough: 120000, Chunk: 50, Rule: histRule, Assume: commonAssume}
 	props["C02"] = propCfg{World: "hist", Level: "exploration", Quick: 2400, Thorough: 120000, Chunk: 50, Rule: histRule, Assume: commonAssume}
+	props["C06"] = propCfg{World: "hist", Level: "exploration", Quick: 2400, Thorough: 120000, Chunk: 50, Rule: histRule + "; for C06 the targets are the 17 methods of the method zoo (exported / unexported, pointer / value receivers, name families Get/GetX/Get1, an unexported struct type, generic instantiations of equal and different GC shape) and every sibling method of the receiver type is called after each step", Assume: commonAssume}
 	props["C12"] = propCfg{World: "hist", Level: "exploration", Quick: 2400, Thorough: 120000, Chunk: 50, Rule: histRule, Assume: commonAssume}
 	props["C13"] = propCfg{World: "hist", Level: "exploration", Quick: 2400, Thorough: 120000, Chunk: 50, Rule: histRule, Assume: commonAssume}
 }
